@@ -93,8 +93,11 @@ func (fx *FnCtx) globalValue(st *State, g *ssa.Global) Value {
 			for _, f := range fx.tc.leafFacts(l, v.L[i]) {
 				fx.root.axioms = append(fx.root.axioms, f)
 			}
-			if l.Kind == "id" || l.Kind == "ref" {
+			if l.Kind == "id" {
 				fx.root.axioms = append(fx.root.axioms, fx.tc.IdxLt(v.L[i], fx.root.entryNAlloc))
+			}
+			if l.Kind == "ref" {
+				fx.root.axioms = append(fx.root.axioms, fx.tc.validRef(v.L[i], fx.root.entryNAlloc))
 			}
 		}
 	}
@@ -183,6 +186,10 @@ func (fx *FnCtx) execInstr(st *State, pc *Term, ins ssa.Instruction) {
 		p := fx.asPtr(fx.val(t.X))
 		fx.nonNil(pc, p, "field address")
 		stt := t.X.Type().Underlying().(*types.Pointer).Elem().Underlying().(*types.Struct)
+		if embeddedFields[stt.Field(t.Field)] {
+			fx.vals[t] = Value{T: t.Type(), P: fx.embeddedPtr(p, stt, t.Field)}
+			return
+		}
 		off, _ := tc.fieldRange(stt, t.Field)
 		np := *p
 		np.Off = p.Off + off
@@ -310,6 +317,32 @@ func (fx *FnCtx) execInstr(st *State, pc *Term, ins ssa.Instruction) {
 	}
 }
 
+// embeddedPtr: pointer to the embedded object at field idx of the object p points to.
+func (fx *FnCtx) embeddedPtr(p *PtrInfo, stt *types.Struct, idx int) *PtrInfo {
+	if p.Kind != PObj || p.Off != 0 || len(p.ArrIdx) != 0 {
+		fx.fail("embedded field %s of an object that is not addressed by a plain reference", stt.Field(idx).Name())
+	}
+	ft := stt.Field(idx).Type()
+	return &PtrInfo{Kind: PObj, Ref: fx.tc.embRef(p.Ref, idx), Root: ft, Typ: ft}
+}
+
+// zeroEmbedded zero-initialises the embedded objects of a freshly allocated object.
+func (fx *FnCtx) zeroEmbedded(st *State, ref *Term, t types.Type, depth int) {
+	stt, ok := t.Underlying().(*types.Struct)
+	if !ok || depth > 3 {
+		return
+	}
+	for i := 0; i < stt.NumFields(); i++ {
+		if !embeddedFields[stt.Field(i)] {
+			continue
+		}
+		ft := stt.Field(i).Type()
+		er := fx.tc.embRef(ref, i)
+		fx.StoreTo(st, &PtrInfo{Kind: PObj, Ref: er, Root: ft, Typ: ft}, fx.tc.Zero(ft))
+		fx.zeroEmbedded(st, er, ft, depth+1)
+	}
+}
+
 func (fx *FnCtx) execAlloc(st *State, pc *Term, t *ssa.Alloc) {
 	tc := fx.tc
 	el := t.Type().(*types.Pointer).Elem()
@@ -327,6 +360,7 @@ func (fx *FnCtx) execAlloc(st *State, pc *Term, t *ssa.Alloc) {
 		ref := fx.newRef(st)
 		p := &PtrInfo{Kind: PObj, Ref: ref, Root: el, Typ: el}
 		fx.StoreTo(st, p, tc.Zero(el))
+		fx.zeroEmbedded(st, ref, el, 0)
 		fx.vals[t] = Value{T: t.Type(), P: p}
 		return
 	}
@@ -392,8 +426,11 @@ func (fx *FnCtx) loadFacts(st *State, pc *Term, v Value) {
 			continue
 		}
 		switch l.Kind {
-		case "id", "ref":
+		case "id":
 			fx.assume(Implies(pc, fx.tc.IdxLt(v.L[i], st.NAlloc)))
+		case "ref":
+			// a reference is an allocated object or an embedded object (see embeddedFields)
+			fx.assume(Implies(pc, fx.tc.validRef(v.L[i], st.NAlloc)))
 		}
 		// ground instance of the type-range fact of the loaded leaf
 		for _, f := range fx.tc.leafFacts(l, v.L[i]) {
@@ -955,17 +992,43 @@ func (fx *FnCtx) ptrIsNil(p *PtrInfo) *Term {
 
 // stringsEqual: equal lengths and bytes. Constant strings compare byte by byte.
 func (fx *FnCtx) stringsEqual(x, y Value) *Term {
-	tc := fx.tc
 	if x.L[2].IsNum() && y.L[2].IsNum() && x.L[2].Val.Cmp(y.L[2].Val) != 0 {
 		return False
 	}
 	if x.L[0] == y.L[0] && x.L[1] == y.L[1] && x.L[2] == y.L[2] {
 		return True
 	}
-	f := DeclareUF("streq_"+tc.Mode.String(), []*Sort{tc.IdxSort(), tc.IdxSort(), tc.IdxSort(), tc.IdxSort(), tc.IdxSort(), tc.IdxSort()}, BoolSort)
-	r := f.App(x.L[0], x.L[1], x.L[2], y.L[0], y.L[1], y.L[2])
+	// strings are immutable: (array, offset, length) determines the content, whose identity is the
+	// uninterpreted key strKey; equal strings have equal keys and equal keys mean equal lengths
+	kx, ky := fx.strKey(x), fx.strKey(y)
+	if kx.IsNum() && ky.IsNum() {
+		return Bool(kx.Val.Cmp(ky.Val) == 0)
+	}
+	r := Eq(kx, ky)
 	fx.assume(Implies(r, Eq(x.L[2], y.L[2])))
 	return r
+}
+
+// strKey: the content identity of a string value. Constant strings get distinct numerals.
+func (fx *FnCtx) strKey(x Value) *Term {
+	tc := fx.tc
+	if x.L[2].IsNum() && x.L[2].Val.Sign() == 0 {
+		return tc.IdxNum(0) // the empty string, whatever its array
+	}
+	if x.L[0].Op == "sym" && strings.HasPrefix(x.L[0].Name, "str_") && x.L[1].IsNum() && x.L[1].Val.Sign() == 0 && x.L[2].IsNum() {
+		// a whole string constant: key = index in the table of constants seen (stable within one run)
+		k, ok := fx.V.strConsts[x.L[0].Name]
+		if !ok {
+			k = len(fx.V.strConsts) + 1
+			fx.V.strConsts[x.L[0].Name] = k
+		}
+		return tc.IdxNum(int64(k))
+	}
+	f := DeclareUF("strkey_"+tc.Mode.String(), []*Sort{tc.IdxSort(), tc.IdxSort(), tc.IdxSort()}, tc.IdxSort())
+	k := f.App(x.L[0], x.L[1], x.L[2])
+	// keys of non-constant strings lie above the table of constants unless they equal one of them:
+	// nothing is assumed beyond functionality (same triple, same key)
+	return k
 }
 
 func (fx *FnCtx) convert(st *State, pc *Term, x Value, from, to types.Type) Value {
